@@ -51,6 +51,23 @@ Theorem C12_views_after_setitem :
 Proof. exact set_cell_wf. Qed.
 Print Assumptions C12_views_after_setitem.
 
+(* Wordlist(dict, row=, col=) with any spelling of the two dimension columns, and any metadata *)
+Theorem C12_build_gen_wf :
+  forall (t : conf) (K : keys) (hdr : list string) (d : list row) (row col : string)
+         (meta : list (string * cell)) (w : wl),
+    NoDup (map fst d) -> build_gen t K hdr d row col meta = Some w -> wf K w.
+Proof. exact build_gen_wf. Qed.
+Print Assumptions C12_build_gen_wf.
+
+(* attribute access: every spelling the alias table maps to the row (column)
+   dimension yields rows (cols) - column aliases win over metadata *)
+Theorem C12_attr_dims :
+  forall (w : wl) (s n : string), sget (n_alias (w_names w)) s = Some n ->
+    (n = d_rown (w_dims w) -> get_attr w s = AList (x_rows (w_index w))) /\
+    (n <> d_rown (w_dims w) -> n = d_coln (w_dims w) -> get_attr w s = AList (x_cols (w_index w))).
+Proof. exact get_attr_dims. Qed.
+Print Assumptions C12_attr_dims.
+
 (* ---- array_each_id_once ------------------------------------------------------ *)
 (* every row id occurs at exactly one position of _array; that position is on a
    line _idx records for the row's concept and in the column of the row's language *)
@@ -311,6 +328,16 @@ Theorem C12_checker_alias :
     expected_idx s (s_columns S) = Some c -> item = Some (map (fun r => nth c (snd r) POISON) (s_data S)).
 Proof. exact alias_b_spec. Qed.
 Print Assumptions C12_checker_alias.
+
+Theorem C12_checker_attr :
+  forall (S : snapshot) (ri ci : nat) (q : queries), attr_b S ri ci q = true ->
+  forall k s a, nth_error (q_attrs q) k = Some s -> nth_error (s_attrs S) k = Some a ->
+    (dim_of s = Some true -> a = AList (s_rows S)) /\
+    (dim_of s = Some false -> a = AList (s_cols S)) /\
+    (dim_of s = None -> forall c, expected_idx s (s_columns S) = Some c ->
+       a = ATable (map (map (ent (s_data S) (Some c))) (s_array S))).
+Proof. exact attr_b_spec. Qed.
+Print Assumptions C12_checker_attr.
 
 Theorem C12_checker_renumber :
   forall S source target override skey kempty src tgt,
